@@ -9,6 +9,12 @@ class A:
     def __repr__(self):
         return type(self).__name__ + '()'
 
+    def __eq__(self, other):          # instances are interchangeable values of their class
+        return type(self) is type(other)
+
+    def __hash__(self):
+        return hash(type(self).__name__)
+
 
 class B(A):
     pass
@@ -21,6 +27,12 @@ class C(B):
 class D:
     def __repr__(self):
         return 'D()'
+
+    def __eq__(self, other):
+        return type(self) is type(other)
+
+    def __hash__(self):
+        return hash('D')
 
 
 TYPES = {'object': object, 'A': A, 'B': B, 'C': C, 'D': D, 'int': int, 'str': str}
@@ -103,6 +115,7 @@ class OverloadSpec:
         exec(body, ns)
         fn = ns['payload']
         fn.__name__ = 'payload_' + self.tag
+        fn.__module__ = 'vmon.generated'
         for p in self.params:
             if p.hidden == 'engine':
                 fn = yspecs.inject(p.name, yt.Engine())(fn)
